@@ -32,7 +32,7 @@ import (
 
 type c27RawSeries struct {
 	tags []int64   // value of metric tag i (index into c27Stub.metric.Tags); 0 = tag not set
-	vals []float64 // value at data slot k (time = c27T0 + k), NaN = no row
+	vals []float64 // value at data slot k (time = t0 + k*grid of the stub), NaN = no row
 }
 
 type c27QueryLog struct {
@@ -45,6 +45,7 @@ type c27Stub struct {
 	metric *format.MetricMetaValue
 	series []c27RawSeries
 	t0     int64 // time of data slot 0
+	grid   int64 // spacing of the data slots in seconds (0 = 1)
 
 	mu      sync.Mutex
 	queries []c27QueryLog
@@ -186,6 +187,10 @@ func (s *c27Stub) QuerySeries(ctx context.Context, qry *SeriesQuery) (Series, fu
 	}
 	groups := map[string]*group{}
 	var order []string
+	grid := s.grid
+	if grid == 0 {
+		grid = 1
+	}
 	for _, sr := range s.series {
 		key := ""
 		gt := make([]int64, nTags)
@@ -208,7 +213,7 @@ func (s *c27Stub) QuerySeries(ctx context.Context, qry *SeriesQuery) (Series, fu
 				if math.IsNaN(v) {
 					continue
 				}
-				rt := s.t0 + int64(k) + qry.Offset
+				rt := s.t0 + int64(k)*grid + qry.Offset
 				if rt < t || rt >= t+step {
 					continue
 				}
